@@ -183,6 +183,8 @@ pub enum Target {
   Bare,
   /// a `jsr:` specifier of a package the loader does not know
   Jsr,
+  /// the same npm package requirement as `Npm`, with a sub path
+  NpmSub,
 }
 
 #[derive(Clone, Copy, PartialEq, Eq, Hash, Debug)]
@@ -279,6 +281,7 @@ impl World {
       Target::Spec(i) => format!("./{}", self.kinds[i].file_name(i)),
       Target::Node => "node:fs".into(),
       Target::Npm => "npm:pkg@1".into(),
+      Target::NpmSub => "npm:pkg@1/sub.js".into(),
       Target::Data => "data:application/typescript,export%20const%20d%3D1%3B".into(),
       Target::Http => "http://x/plain.ts".into(),
       Target::FileLiteral => "file:///w/local.ts".into(),
@@ -351,7 +354,7 @@ impl World {
       let form = forms[pick("form", forms.len())];
       let mut targets: Vec<Target> = (0..o.n_specs).map(Target::Spec).collect();
       if o.special_targets {
-        targets.extend([Target::Node, Target::Npm, Target::Data, Target::Bare, Target::Jsr]);
+        targets.extend([Target::Node, Target::Npm, Target::Data, Target::Bare, Target::Jsr, Target::NpmSub]);
         if remote {
           targets.extend([Target::Http, Target::FileLiteral]);
         }
